@@ -2,6 +2,7 @@ CONSTANTS
   MaxSize = 8
   Prof <- ProfMath
   MathTable <- NoTable
+  GenBackend = "any"
 INIT GInit
 NEXT GNext
 INVARIANT Export
